@@ -49,4 +49,4 @@ LEVEL_TEXT = ('Bounded symbolic verification of the real SymmetricTridiagonalSol
               'Right level: the algebra is a for-all over entries; dimensions are bounded.')
 LEVEL_NOTE = 'exact arithmetic core only: backward stability / scaling are rounding statements and are not decided; n bounded as listed; -DNDEBUG build'
 TECHNIQUE = 'symbolic execution of LLVM IR (llsym) + SMT (z3 QF_NRA), divisions as premises + separate pivot-safety obligations'
-DESIGN_REF = 'DESIGN.md section 6/C14'
+DESIGN_REF = 'DESIGN.md section 0 (status as built: 0.2, 0.5, 0.6) and section 6/C14 (design)'
